@@ -89,7 +89,10 @@ class Random(ArrayOpSpec):
             off = 0
             for b, nb in zip(bc, nbs):
                 off = off * nb + b
-            return ("<value>", (wrap(R(tz(c.root_seed + off), *[tz(l) for l in loc])),))
+            rs = getattr(c, "root_seed", None)
+            if rs is None:  # no seed was drawn while building: nothing the task uses can be the build-time seed
+                rs = c.root_seed = c.ctx.fresh_int("undrawn_seed")
+            return ("<value>", (wrap(R(tz(rs + off), *[tz(l) for l in loc])),))
 
         c.expect_origin = exp
         return (shape,), dict(dtype=Dtype("float64", 8), chunks=chunks, spec=c.spec_obj)
@@ -99,7 +102,7 @@ class Random(ArrayOpSpec):
         draws = [e for e in c.ctx.effects if e[0] == "draw-root-seed"]
         yield "exactly-one-seed-drawn-while-building", len(draws) == 1
         rec = c.gb_calls[-1]
-        yield "the-seed-travels-with-the-operation", rec.kwargs.get("root_seed") is c.root_seed
+        yield "the-seed-travels-with-the-operation", len(draws) == 1 and rec.kwargs.get("root_seed") is getattr(c, "root_seed", None)
         # distinct blocks use distinct generator keys: the row-major offset is injective on the block grid
         nbs = tuple((n + ch - 1) // ch for n, ch in zip(c.shape, c.chunks))
         b1 = tuple(c.int(f"blk_a{i}", lo=0) for i in range(len(nbs)))
